@@ -42,6 +42,10 @@ type LConv struct {
 	// update:ignoreZeroValueField:basic over structs that hold an unsafe.Pointer field (a
 	// basic type whose zero value is nil).
 	UnsafeZero bool `json:"unsafe_zero,omitempty"`
+	// Exotic adds one more method over legal but rarely used shapes:
+	// uintptr-list ([]uintptr fields) | unsafeptr-list ([]unsafe.Pointer fields) |
+	// update-func-nosource (update method with `goverter:map F | Func`, Func taking no source).
+	Exotic string `json:"exotic,omitempty"`
 	// PkgFirst: the output:package line is written above the output:file line.
 	PkgFirst bool `json:"pkg_first,omitempty"`
 	// Raw is a goverter:output:raw line.
@@ -86,6 +90,10 @@ type LSpec struct {
 	// Common: every converter additionally converts []commontypes.Item → []commontypes.ItemOut
 	// (types of a shared package), so that all converters need a helper of the same name.
 	Common bool `json:"common,omitempty"`
+	// EqualNames: converters of different packages carry the same declared name and are merged
+	// into one file; no well-formed merge exists without renaming, so a refusal (exit 1) is as
+	// acceptable as a well-formed file — a successful run with duplicate declarations is not.
+	EqualNames bool `json:"equal_names,omitempty"`
 	// LinkedFiles: declaring file (dir/file) → path of the regular file it is a symbolic link
 	// to (a shared source kept outside every package directory). Outputs stay relative to the
 	// declaring file, i.e. to the link.
@@ -252,7 +260,7 @@ func (s *LSpec) render() map[string]string {
 			fmt.Fprintf(&b, "import %q\n\n", importPath("commontypes"))
 		}
 		for _, c := range convs {
-			if c.UnsafeZero {
+			if c.UnsafeZero || c.Exotic == "unsafeptr-list" {
 				b.WriteString("import \"unsafe\"\n\n")
 				break
 			}
@@ -362,7 +370,8 @@ func (s *LSpec) renderConv(b *strings.Builder, c *LConv) {
 	}
 	in, out := "In"+n, "Out"+n
 	outT := out
-	if c.Defect == "conversion" {
+	generic := c.Defect == "generic" && c.Kind == "interface" && !c.GuardedDecl
+	if c.Defect == "conversion" || (c.Defect == "generic" && !generic) {
 		outT = "Bad" + n
 	}
 	sig0 := fmt.Sprintf("(source %s) %s", in, outT)
@@ -396,11 +405,32 @@ func (s *LSpec) renderConv(b *strings.Builder, c *LConv) {
 		}
 		defer fmt.Fprintf(b, "type Uz%s struct {\n    Label string\n    Handle unsafe.Pointer\n}\ntype UzOut%s struct {\n    Label string\n    Handle unsafe.Pointer\n}\n\n", n, n)
 	}
+	if c.Exotic != "" && !c.GuardedDecl {
+		fn := ""
+		if c.Kind != "interface" {
+			fn = " func"
+		}
+		switch c.Exotic {
+		case "uintptr-list", "unsafeptr-list":
+			et := "uintptr"
+			if c.Exotic == "unsafeptr-list" {
+				et = "unsafe.Pointer"
+			}
+			m1 += fmt.Sprintf("    %s%s(source Ex%s) ExOut%s\n", c.method(3), fn, n, n)
+			defer fmt.Fprintf(b, "type Ex%s struct {\n    Label string\n    Handles []%s\n}\ntype ExOut%s struct {\n    Label string\n    Handles []%s\n}\n\n", n, et, n, et)
+		case "update-func-nosource":
+			m1 += fmt.Sprintf("    // goverter:update target\n    // goverter:map Stamp | Stamp%s\n    %s%s(source Ex%s, target *ExOut%s)\n", n, c.method(3), fn, n, n)
+			defer fmt.Fprintf(b, "func Stamp%s() int { return 7 }\n\ntype Ex%s struct{ Label string }\ntype ExOut%s struct {\n    Label string\n    Stamp int\n}\n\n", n, n, n)
+		}
+	}
 	if c.Kind == "interface" && c.GuardedDecl {
 		s.guardedDecls = append(s.guardedDecls, [2]string{
 			path.Join(c.Dir, "decl_"+strings.ToLower(c.Name)+"_guarded.go"),
 			fmt.Sprintf("//go:build %s\n\npackage %s\n\n%s\ntype %s interface {\n%s    %s%s\n%s}\n", s.tag(), s.PkgNames[c.Dir], strings.Join(lines, "\n"), n, methodDoc, c.method(0), sig0, m1),
 		})
+	} else if generic {
+		// a generic converter interface: cannot be generated, must be refused with a diagnostic
+		fmt.Fprintf(b, "%s\ntype %s[T any] interface {\n    %s(source Gen%s[T]) GenOut%s[T]\n}\n\ntype Gen%s[T any] struct{ A T }\ntype GenOut%s[T any] struct{ A T }\n\n", strings.Join(lines, "\n"), n, c.method(0), n, n, n, n)
 	} else if c.Kind == "interface" {
 		fmt.Fprintf(b, "%s\ntype %s interface {\n%s    %s%s\n%s}\n\n", strings.Join(lines, "\n"), n, methodDoc, c.method(0), sig0, m1)
 	} else {
@@ -418,7 +448,7 @@ func (s *LSpec) renderConv(b *strings.Builder, c *LConv) {
 	fmt.Fprintf(b, "type %s struct {\n    %s %s\n    %s string\n    %s []Sub%s\n%s}\n", in, fa, raw, fb, fc, n, cin)
 	fmt.Fprintf(b, "type %s struct {\n    %s %s\n    %s string\n    %s []SubOut%s\n%s}\n", out, fa, cooked, fb, fc, n, cout)
 	fmt.Fprintf(b, "type Sub%s struct{ V%d int }\ntype SubOut%s struct{ V%d int }\n", n, c.Version, n, c.Version)
-	if c.Defect == "conversion" {
+	if c.Defect == "conversion" || (c.Defect == "generic" && !generic) {
 		fmt.Fprintf(b, "type Bad%s struct{ Unmappable%s chan int }\n", n, n)
 	}
 	if c.Defect == "marker" {
@@ -462,6 +492,9 @@ func (s *LSpec) World(name string) *World {
 		w.Globals = append(w.Globals, "wrapErrorsUsing "+importPath("errwrap"))
 	}
 	sort.Strings(w.Patterns)
+	if s.compilesWithOutputs() {
+		w.Tags = append(w.Tags, "compiles-with-outputs")
+	}
 	if s.Tag != "" || s.TagList != "" {
 		w.BuildTags = strp(s.tag())
 		if s.TagList != "" {
@@ -470,6 +503,21 @@ func (s *LSpec) World(name string) *World {
 		w.OutputConstraint = strp("!" + s.tag())
 	}
 	return w
+}
+
+// compilesWithOutputs: by construction the module compiles without any build tag once the
+// outputs exist (nothing in it is guarded by the tag, refers to not-yet-generated code, or
+// injects raw code), so a run whose previous output is visible to the loader must succeed.
+func (s *LSpec) compilesWithOutputs() bool {
+	if s.WrapPkg || s.GuardedUser || len(s.UserPkgUses) > 0 || s.EqualNames || s.Tag != "" || s.TagList != "" {
+		return false
+	}
+	for _, c := range s.Convs {
+		if c.Guarded || c.GuardedDecl || c.ExtIn != "" || c.Raw != "" || c.Defect != "" {
+			return false
+		}
+	}
+	return true
 }
 
 // two entries share their base name (svc/conv, api/conv): packages of equal name in one run
@@ -714,8 +762,15 @@ func DrawLayout(rng *rand.Rand, nConv int, opts LayoutOpts) *LSpec {
 	}
 	if opts.UnsafeZero {
 		for i := range s.Convs {
-			if rng.IntN(4) == 0 {
+			switch rng.IntN(8) {
+			case 0, 1:
 				s.Convs[i].UnsafeZero = true
+			case 2:
+				s.Convs[i].Exotic = "uintptr-list"
+			case 3:
+				s.Convs[i].Exotic = "unsafeptr-list"
+			case 4:
+				s.Convs[i].Exotic = "update-func-nosource"
 			}
 		}
 	}
@@ -849,6 +904,25 @@ func MergeSpecs() []*LSpec {
 			s.Convs = []LConv{mk("svc/conv", "conv.go", "Ma"), mk("api/conv", "api.go", "Mb"), mk("svc/conv", "conv.go", "Mc"), mk("a", "other.go", "Md")}
 			out = append(out, s)
 		}
+	}
+	for _, format := range []string{"struct", "function"} {
+		s := &LSpec{UserPkgs: map[string]string{}, PkgNames: map[string]string{"svc/conv": "conv", "api/conv": "conv"}, EqualNames: true}
+		s.Convs = []LConv{
+			{Dir: "svc/conv", File: "conv.go", Kind: "interface", Name: "Converter", Version: 1, Format: format, OutFile: "@cwd/gen/gen.go"},
+			{Dir: "api/conv", File: "api.go", Kind: "interface", Name: "Converter", Version: 1, Format: format, OutFile: "@cwd/gen/gen.go"},
+		}
+		out = append(out, s)
+	}
+	// one file selected through three spellings (relative with .., absolute and @cwd/ with
+	// redundant segments): still the same file, the converters must be merged
+	for _, format := range []string{"struct", "function"} {
+		s := &LSpec{UserPkgs: map[string]string{}, PkgNames: map[string]string{"svc/conv": "conv", "api/conv": "conv", "a": "a"}}
+		s.Convs = []LConv{
+			{Dir: "svc/conv", File: "conv.go", Kind: "interface", Name: "Sa", Version: 1, Format: format, OutFile: "../shared2/gen.go"},
+			{Dir: "a", File: "other.go", Kind: "interface", Name: "Sb", Version: 1, Format: format, OutFile: RootPlaceholder + "/a/../svc/shared2/gen.go"},
+			{Dir: "api/conv", File: "api.go", Kind: "interface", Name: "Sc", Version: 1, Format: format, OutFile: "@cwd/svc/./shared2/x/../gen.go"},
+		}
+		out = append(out, s)
 	}
 	return out
 }
